@@ -373,6 +373,8 @@ def observe_chain(chain, with_paths=False):
             canon=canon[id(t)],
             path=rel_path(t.data_path) if with_paths else None,
             objid=id(t),
+            # the name of the config the task came from (in parameter mode the task holds a config of its own made from it)
+            cfg=str(getattr(t.get_config(), 'original_config', t.get_config()).name),
         )
     edges = sorted({(canon[id(u)], canon[id(v)]) for u, v in chain.graph.edges})
     return dict(tasks=out, edges=[list(e) for e in edges])
